@@ -41,6 +41,7 @@ func init() {
 		"strconv.Itoa":      extItoa,
 		"strconv.FormatInt": extFormatInt,
 		"strconv.Quote":     extQuote,
+		"strconv.Unquote":   extUnquote,
 		"io.WriteString":    extWriteString,
 	} {
 		externals[k] = v
@@ -625,4 +626,17 @@ func decimalOf(fr *frame, x sym) []value {
 		digits[k] = mkval(mk2(OpAdd, 8, d8, mkConst(8, '0')), types.Uint8)
 	}
 	return append(out, digits...)
+}
+
+// strconv.Unquote: concrete strings only (used by harness oracles).
+func extUnquote(fr *frame, args []value) value {
+	cs, ok := args[0].(string)
+	if !ok {
+		panic(unsupported("strconv.Unquote on a symbolic string"))
+	}
+	v, err := strconv.Unquote(cs)
+	if err != nil {
+		return tuple{"", fr.errValue(err.Error())}
+	}
+	return tuple{v, iface{}}
 }
